@@ -366,13 +366,47 @@ class Unit:
         body = txt[le + 1:bclose]
         notes = Notes()
         notes.add('R12', 'lifted tail of the block after `%s` of %s as fn %s%s' % (frm[0], qual, name, params))
+        # optional: @until `anchor` ends the lifted region BEFORE the line containing the anchor (the rest of the block is not
+        # part of the function); @continue_as EXPR turns `continue;` (the region is a loop-body prefix) into `return EXPR;`;
+        # @end_expr EXPR is the value of falling through the end of the region.  Together: the prefix of a loop body as a
+        # function that tells whether control reaches the end of the prefix.
+        until = cont_as = end_expr = None
+        for (nm, arg, lines, nth) in s.subs:
+            if nm == 'until':
+                until = _anchor(arg)
+            elif nm == 'continue_as':
+                cont_as = arg.strip()
+            elif nm == 'end_expr':
+                end_expr = arg.strip()
+        if until is not None:
+            up = body.find(until)
+            if up < 0:
+                raise ExtractError('@@lift @until anchor lost in %s: `%s`' % (qual, until))
+            body = body[:body.rfind('\n', 0, up) + 1]
+            notes.add('R12', 'lifted region ends before `%s`' % until)
+        if cont_as is not None:
+            bm = mask_text(body)
+            if re.search(r'\bbreak\b', bm):
+                raise ExtractError('@@lift @continue_as: region contains `break`')
+            out = []
+            last = 0
+            for mm in re.finditer(r'\bcontinue\s*;', bm):
+                out.append(body[last:mm.start()])
+                out.append('return %s;' % cont_as)
+                last = mm.end()
+            out.append(body[last:])
+            body = ''.join(out)
+            notes.add('R12', '`continue;` of the loop-body prefix rewritten as `return %s;`' % cont_as)
+        if end_expr is not None:
+            body = body + '        ' + end_expr + '\n'
+
         fn_txt = 'pub fn %s%s {\n%s}' % (name, params, body)
         rules = [r for r in DEFAULT_RULES if r not in (s.opt('skip') or '').split(',')]
         fn_txt = apply_rules(fn_txt, rules, notes, self.extra_log_macros)
         fn_txt = self._apply_substs(fn_txt, s, notes)
         rewritten = fn_txt
         sub = Section('fn', [rel, name] + [a for a in s.args[2:]], s.lineno)
-        sub.subs = [x for x in s.subs if x[0] not in ('from', 'params')]
+        sub.subs = [x for x in s.subs if x[0] not in ('from', 'params', 'until', 'continue_as', 'end_expr')]
         fn_txt, has_contract = weave(fn_txt, sub, notes, canary)
         if canary:
             fn_txt = re.sub(r'\bfn\s+' + re.escape(name) + r'\b', 'fn ' + name + '__canary', fn_txt, count=1)
